@@ -2607,6 +2607,9 @@ class AggregateBase(UnitsManaged, Saveable, OpenSystem):
             for i in range(start, dim):
                 ens[i-start] = numpy.real(HH[i,i] - subtract[i-start])
 
+            # only energy differences matter; avoids underflow of all factors
+            ens = ens - numpy.amin(ens)
+
             ne = numpy.exp(-ens/kBT)
             sne = numpy.sum(ne)
             rho0_diag = ne/sne
